@@ -733,7 +733,21 @@ class Engine:
         for cls in classes:
             for inst in instances:
                 res.instances += 1
+                before = res.normal_paths
                 self._verify_instance(finfo, contract, cls, inst, res)
+                if getattr(contract.impl, "cover_instances", False) and not res.limits:
+                    # opt-in reachability obligation per instance: some path of this instance returns normally (a change
+                    # that makes a whole instance raise - e.g. through an exception the contract merely allows - must not
+                    # verify vacuously).  Goal True/False is decided by the exploration; the query keeps the entry
+                    # assumptions so that a failure is reported as `sat`.
+                    tag = ""
+                    if inst is not None:
+                        tag = "[" + ",".join("%s=%s" % kv for kv in sorted(inst.items())) + "]"
+                    if cls is not None and cls is not finfo.cls:
+                        tag = "<%s>" % cls.name + tag
+                    res.obligations.append(Obligation("%s%s/cover#returns-normally" % (short(contract.qualname), tag),
+                                                      [], z3.BoolVal(res.normal_paths > before), [],
+                                                      contract.qualname + tag, [], kind="cover"))
         return res
 
     def sliced_function(self, qualname: str, spec: dict) -> Optional[FuncInfo]:
@@ -859,16 +873,30 @@ class Engine:
             ctx.under_quantifier = True
             obj = Obj(cls, False, r, None, ctx)
             res = self.run_spec(ctx, cs.invariant, obj)
-            clauses = list(res.values()) if isinstance(res, dict) else list(res or [])
-            body = z3.And(*([lift_bool(c) for c in clauses] + ctx.pc))
+            items = list(res.items()) if isinstance(res, dict) else [("%d" % k_, c_) for k_, c_ in enumerate(res or [])]
             guard = z3.Or(*[self.tag_fn(r) == self.class_id(c) for c in cls.all_subclasses()])
-            pats = _uf_apps_on(body, r)
-            own = [p for p in pats if p.decl().name().startswith("fld!%s!" % cls.name)]
-            own_ids = set(p.get_id() for p in own)
-            inherited = [p for p in pats if p.decl().name().startswith("fld!") and p.get_id() not in own_ids]
-            pats = (own + inherited) or pats
-            out.append(("class-invariant:" + cls.name, "established by %s.__init__ (obligation inv#...)" % cls.name,
-                        z3.ForAll([r], z3.Implies(guard, body), patterns=pats[:8])))
+
+            def pats_of(body):
+                pats = _uf_apps_on(body, r)
+                own = [p for p in pats if p.decl().name().startswith("fld!%s!" % cls.name)]
+                own_ids = set(p.get_id() for p in own)
+                inherited = [p for p in pats if p.decl().name().startswith("fld!") and p.get_id() not in own_ids]
+                return (own + inherited) or pats
+
+            whole = z3.And(*([lift_bool(c) for _, c in items] + ctx.pc))
+            all_pats = pats_of(whole)
+            # one axiom per clause, triggered by the terms that the clause itself speaks about (a clause about the
+            # alignment is not instantiated because of a term about the bit length set, and vice versa)
+            for lab, c in items:
+                cb = lift_bool(c)
+                ps = pats_of(cb) or all_pats
+                out.append(("class-invariant:%s#%s" % (cls.name, lab),
+                            "established by %s.__init__ (obligation inv#%s.%s)" % (cls.name, cls.name, lab),
+                            z3.ForAll([r], z3.Implies(guard, cb), patterns=ps[:8])))
+            if ctx.pc:
+                out.append(("class-invariant:%s#side-conditions" % cls.name, "kind side conditions of the fields read by the "
+                            "invariant (enum ordinals in range, lengths non-negative)",
+                            z3.ForAll([r], z3.Implies(guard, z3.And(*ctx.pc)), patterns=all_pats[:8])))
             for k_, a_ in enumerate(ctx.axioms):
                 out.append(("class-invariant:%s/aux%d" % (cls.name, k_), "definition of a canonical filtered / mapped "
                             "sequence used by the invariant", a_))
@@ -923,6 +951,11 @@ class Engine:
                     args[p.arg] = V.ClassVal(cls)
                     continue
                 self_obj = self.materialise_self(ctx, cls, is_init)
+                for k, v in ((getattr(contract.impl, "body_slice", None) or {}).get("self_fields") or {}).items():
+                    # a statement slice: fields of self assigned by the dropped statements before it
+                    fv = ctx.fresh_kind("self." + k, v)
+                    self.assume_wellformed(ctx, fv)
+                    self_obj.fields[k] = fv
                 if inst is not None:
                     for k, v in inst.items():
                         if k.startswith("self."):
@@ -954,6 +987,9 @@ class Engine:
                 ctx.assume(lift_bool(inv))
         for label, c in self.run_spec(ctx, lambda: contract.clauses("pre", ns)):
             ctx.assume(lift_bool(c))
+        if getattr(contract, "definitions", None) is not None:
+            for label, c in self.run_spec(ctx, lambda: contract.clauses("definitions", ns)):
+                ctx.assume(lift_bool(c))  # defining equation of a ghost predicate (see Contract.definitions)
         if res is not None and res.entry_pc is None:
             res.entry_pc = list(ctx.pc)
             res.entry_axioms = list(ctx.axioms)
@@ -2317,6 +2353,12 @@ def split_goal(name, goal):
         out = []
         for k, c in enumerate(goal.children()):
             out.extend(split_goal("%s.%d" % (name, k) if goal.num_args() > 1 else name, c))
+        return out
+    if z3.is_not(goal) and z3.is_or(goal.arg(0)) and goal.arg(0).num_args() > 1:
+        # not (a or b ...): one goal per disjunct (e.g. "normal return implies none of the rejection reasons")
+        out = []
+        for k, c in enumerate(goal.arg(0).children()):
+            out.extend(split_goal("%s.%d" % (name, k), z3.Not(c)))
         return out
     if z3.is_eq(goal) and z3.is_array(goal.arg(0)) and goal.arg(0).sort().range() == z3.BoolSort():
         a, b = goal.arg(0), goal.arg(1)
